@@ -1,3 +1,285 @@
 import LocustModel.Proto
-/- Driver stub for C16 (replaced when the property's model is built). -/
-def main : IO Unit := LM.Proto.runDriver fun _ => "?\t?"
+import LocustModel.Wire.ApiInts
+import LocustModel.Wire.EventBuffer
+import LocustModel.Wire.XorFloat
+/-
+  Driver for C16.  Input line:  `<kind> <inputs…> :: <implementation output>`
+    ints <i64 list>
+    rows <clock bits list> <row>…      row = `()` | name=cell,name=cell…   cell = _ | i<int> | f<16 hex> | x<hex>
+    wire <len> <name>=<rep>…           rep = E | D:<bits,…> | S:<i>@<bits>,… | I:<ints> | SI:<i>@<int>,… | T:<x…,…> | M:<cells>
+    xor <max_regret> <mantissa|_> <16-hex bit patterns>
+  Output:  <model> TAB <spec: OK | BAD … | SKIP> [TAB <known finding id>]
+-/
+namespace LM.DrvC16
+open LM LM.Proto
+
+def splitImpl (line : String) : String × String :=
+  match line.trimAscii.toString.splitOn " :: " with
+  | [a] => (a, "")
+  | a :: rest => (a, " :: ".intercalate rest)
+  | [] => ("", "")
+
+/-! ### ints -/
+section Ints
+open LM.Wire.ApiInts
+
+def showInts (xs : List Int) : String := showList showInt xs
+
+def showLayout : Layout → String
+  | .range s n st => s!"range:{s}:{n}:{st}"
+  | .delta w f d => s!"d{w.tag}:{f}:{showInts d}"
+  | .ddelta w f s d => s!"dd{w.tag}:{f}:{s}:{showInts d}"
+  | .plain xs => s!"plain:{showInts xs}"
+
+def intsModel (xs : List Int) : String :=
+  match encode xs with
+  | .error _ => "panic-enc"
+  | .ok l =>
+    showLayout l ++ " => " ++
+      match decode l with
+      | .error _ => "panic-dec"
+      | .ok ys => "ok:" ++ showInts ys
+
+/-- The specification judges the implementation output: it must end in the decoded values = the input. -/
+def intsSpec (xs : List Int) (impl : String) : String :=
+  match impl.splitOn " => " with
+  | [_, dec] => if dec = "ok:" ++ showInts xs then "OK" else "BAD decoded differs from the values sent: " ++ dec.take 60
+  | _ => "BAD no decoded column: " ++ impl.take 60
+
+def intsKnown (xs : List Int) : String :=
+  if diffOverflows xs then "api-delta-i64-overflow"
+  else if rangeMulOverflows xs then "api-range-decode-mul-overflow"
+  else ""
+
+def stepInts (arg impl : String) : String :=
+  match parseList parseInt? arg with
+  | none => "bad-op\tbad-op"
+  | some xs =>
+    let k := intsKnown xs
+    intsModel xs ++ "\t" ++ intsSpec xs impl ++ (if k = "" then "" else "\t" ++ k)
+end Ints
+
+
+/-! ### event buffers -/
+section EB
+open LM.Wire.EventBuffer
+
+def hexNat? (s : String) : Option Nat :=
+  if s.isEmpty then none else
+  s.toList.foldlM (fun acc c => (hexDigit? c).map (acc * 16 + ·)) 0
+
+def hex16 (n : Nat) : String :=
+  String.ofList ((List.range 16).map fun i => hexChar ((n >>> (4 * (15 - i))) % 16))
+
+def parseVal? (s : String) : Option Val :=
+  match s.toList with
+  | ['_'] => some .null
+  | 'i' :: r => (String.ofList r).toInt?.map .int
+  | 'f' :: r => (hexNat? (String.ofList r)).map .float
+  | 'x' :: _ => some (.str s)
+  | _ => none
+
+def showVal : Val → String
+  | .null => "_"
+  | .int i => s!"i{i}"
+  | .float b => "f" ++ hex16 b
+  | .str s => s
+
+def splitFirst (s : String) (sep : String) : Option (String × String) :=
+  match s.splitOn sep with
+  | a :: b :: rest => some (a, sep.intercalate (b :: rest))
+  | _ => none
+
+def parsePair? (f : String → Option α) (s : String) : Option (Nat × α) := do
+  let (a, b) ← splitFirst s "@"
+  let i ← a.toNat?
+  let v ← f b
+  pure (i, v)
+
+def parseRow? (s : String) : Option (List (String × Val)) :=
+  if s = "()" then some [] else
+  (s.splitOn ",").mapM fun e => do
+    let (k, v) ← splitFirst e "="
+    let v ← parseVal? v
+    pure (k, v)
+
+def showPairs (f : α → String) (d : List (Nat × α)) : String :=
+  showList (fun p => s!"{p.1}@{f p.2}") d
+
+def showIC : InputColumn → String
+  | .int d => "I:" ++ showList showInt d
+  | .float d => "F:" ++ showList hex16 d
+  | .nullableFloat r d => s!"NF:{r}:" ++ showPairs hex16 d
+  | .nullableInt r d => s!"NI:{r}:" ++ showPairs showInt d
+  | .str d => "T:" ++ showList id d
+  | .null r => s!"N:{r}"
+  | .mixed d => "M:" ++ showList showVal d
+
+def parseIC? (s : String) : Option InputColumn :=
+  match s.splitOn ":" with
+  | ["I", d] => (parseList parseInt? d).map .int
+  | ["F", d] => (parseList hexNat? d).map .float
+  | ["NF", r, d] => do let r ← r.toNat?; let d ← parseList (parsePair? hexNat?) d; pure (.nullableFloat r d)
+  | ["NI", r, d] => do let r ← r.toNat?; let d ← parseList (parsePair? parseInt?) d; pure (.nullableInt r d)
+  | ["T", d] => (parseList (fun x => some x) d).map .str
+  | ["N", r] => r.toNat?.map .null
+  | ["M", d] => (parseList parseVal? d).map .mixed
+  | _ => none
+
+def insertSorted (e : String × α) : List (String × α) → List (String × α)
+  | [] => [e]
+  | x :: xs => if e.1 < x.1 then e :: x :: xs else x :: insertSorted e xs
+
+def sortByName (l : List (String × α)) : List (String × α) := l.foldr insertSorted []
+
+/-- `len=<n> name=<dump> …`, columns sorted by name; a failing `from_column_data` shows as `panic`. -/
+def showServer (len : Nat) (cols : List (String × ColumnData)) : String :=
+  " ".intercalate (s!"len={len}" :: (sortByName cols).map fun (n, d) =>
+    n ++ "=" ++ match fromColumnData d len with
+      | .ok ic => showIC ic
+      | .error _ => "panic")
+
+/-- Parse the implementation's dump into `len` and per-column logical cells (`none` = panic). -/
+def parseServer? (s : String) : Option (Nat × List (String × Option (List Val))) :=
+  match s.splitOn " " with
+  | [] => none
+  | l :: cols => do
+    let (k, n) ← splitFirst l "="
+    if k ≠ "len" then none
+    let n ← n.toNat?
+    let cs ← cols.mapM fun c => do
+      let (name, d) ← splitFirst c "="
+      if d = "panic" then pure (name, none) else
+      let ic ← parseIC? d
+      pure (name, some ic.cells)
+    pure (n, cs)
+
+def showCells (o : Option (List Val)) : String :=
+  match o with
+  | none => "panic"
+  | some cs => showList showVal cs
+
+def judge (expLen : Nat) (exp : List (String × List Val)) (impl : String) : String :=
+  match parseServer? impl with
+  | none => "BAD server did not produce the table: " ++ impl.take 60
+  | some (n, cols) =>
+    if n ≠ expLen then s!"BAD row count {n}, expected {expLen}"
+    else
+      let exp := sortByName exp
+      if cols.map (·.1) ≠ exp.map (·.1) then "BAD column set " ++ " ".intercalate (cols.map (·.1))
+      else
+        match (cols.zip exp).find? (fun (c, e) => c.2 ≠ some e.2) with
+        | some (c, e) => s!"BAD column {c.1}: cells {showCells c.2} expected {showCells (some e.2)}"
+        | none => "OK"
+
+def rowsModel (rows : List (List (String × Val) × Nat)) : String :=
+  let rec go (t : Table) (i : Nat) : List (List (String × Val) × Nat) → String
+    | [] => showServer t.len t.cols
+    | (row, clock) :: rest =>
+      match pushRow t row clock with
+      | .error _ => s!"panic-push@{i}"
+      | .ok t' => go t' (i + 1) rest
+  go Table.new 0 rows
+
+def nodupKeys (row : List (String × Val)) : Bool := (row.map (·.1)).eraseDups.length == row.length
+
+def rowsSpec (rows : List (List (String × Val) × Nat)) (impl : String) : String :=
+  let erows := rows.map fun (r, c) => effRow r c
+  let names := mentioned erows
+  let colVals := names.map fun c => (c, erows.map (rowVal c))
+  if !(rows.all fun (r, _) => nodupKeys r) then "SKIP duplicate column in a row"
+  else if !(colVals.all fun (_, vs) => decide (Supported vs)) then "SKIP sparse or mixed-type string column (not supported by the row API)"
+  else judge rows.length (colVals.map fun (c, vs) => (c, specCells vs)) impl
+
+def stepRows (clock : String) (rowToks : List String) (impl : String) : String :=
+  let rowToks := if rowToks = ["[]"] then [] else rowToks
+  match parseList hexNat? clock, rowToks.mapM parseRow? with
+  | some clock, some rows =>
+    if clock.length ≠ rows.length then "bad-op\tbad-op" else
+    let rc := rows.zip clock
+    rowsModel rc ++ "\t" ++ rowsSpec rc impl
+  | _, _ => "bad-op\tbad-op"
+
+def parseRep? (s : String) : Option ColumnData :=
+  match s.splitOn ":" with
+  | ["E"] => some .empty
+  | ["D", d] => (parseList hexNat? d).map .dense
+  | ["S", d] => (parseList (parsePair? hexNat?) d).map .sparse
+  | ["I", d] => (parseList parseInt? d).map .i64
+  | ["SI", d] => (parseList (parsePair? parseInt?) d).map .sparseI64
+  | ["T", d] => (parseList (fun x => some x) d).map .str
+  | ["M", d] => (parseList parseVal? d).map .mixed
+  | _ => none
+
+def stepWire (len : String) (colToks : List String) (impl : String) : String :=
+  let colToks := if colToks = ["[]"] then [] else colToks
+  let cols := colToks.mapM fun c => do
+    let (name, r) ← splitFirst c "="
+    let d ← parseRep? r
+    pure (name, d)
+  match len.toNat?, cols with
+  | some len, some cols =>
+    let model := showServer len cols
+    let spec :=
+      match cols.mapM (fun (n, d) => (wireCells len d).map fun cs => (n, cs)) with
+      | none => "SKIP malformed message (column longer than the table, unsorted sparse indices, short string column)"
+      | some exp => judge len exp impl
+    model ++ "\t" ++ spec
+  | _, _ => "bad-op\tbad-op"
+end EB
+
+/-! ### xor float stream -/
+section Xor
+open LM.Wire.XorFloat
+
+def showBytes (bs : List Nat) : String :=
+  "x" ++ String.ofList (bs.flatMap fun b => [hexChar (b / 16), hexChar (b % 16)])
+
+def xorModel (xs : List Nat) (regret : Nat) (m : Option Nat) : String :=
+  match encode xs regret m with
+  | .error _ => "panic-enc"
+  | .ok bytes =>
+    showBytes bytes ++ " => " ++
+      match decode bytes with
+      | .error .eof => "err-dec"
+      | .error .panic => "panic-dec"
+      | .ok ys => "ok:" ++ showList hex16 ys
+
+/-- Specification: bit-exact without a mantissa setting; with `m ≤ 52` every value keeps sign, exponent and
+    the `m` leading mantissa bits (`&&& maskOf m`). -/
+def xorSpec (xs : List Nat) (m : Option Nat) (impl : String) : String :=
+  if mantissaTooLarge m then "SKIP mantissa > 52 (documented assert)" else
+  match impl.splitOn " => " with
+  | [_, dec] =>
+    match dec.splitOn "ok:" with
+    | ["", l] =>
+      match parseList hexNat? l with
+      | none => "BAD unparsable decoded values"
+      | some ys =>
+        if ys.length ≠ xs.length then s!"BAD {ys.length} values decoded, {xs.length} encoded"
+        else
+          let mask := maskOf m
+          match (ys.zip xs).find? (fun (y, x) => y &&& mask ≠ x &&& mask) with
+          | some (y, x) => s!"BAD value {hex16 x} decoded as {hex16 y}"
+          | none => "OK"
+    | _ => "BAD decoder failed: " ++ dec.take 40
+  | _ => "BAD no decoded values: " ++ impl.take 40
+
+def stepXor (regret mant vals impl : String) : String :=
+  match regret.toNat?, parseOpt parseNat? mant, parseList hexNat? vals with
+  | some r, some m, some xs => xorModel xs r m ++ "\t" ++ xorSpec xs m impl
+  | _, _, _ => "bad-op\tbad-op"
+end Xor
+
+def step (line : String) : String :=
+  let (inp, impl) := splitImpl line
+  match splitTokens inp with
+  | ["ints", arg] => stepInts arg impl
+  | "rows" :: clock :: rows => stepRows clock rows impl
+  | "wire" :: len :: cols => stepWire len cols impl
+  | ["xor", r, m, vals] => stepXor r m vals impl
+  | _ => "bad-op\tbad-op"
+
+end LM.DrvC16
+
+def main : IO Unit := LM.Proto.runDriver LM.DrvC16.step
